@@ -675,6 +675,11 @@ def race_cfgs():
     for x in RACE_OTHERS:
         out.append(dict(eps=['exchange', x], target='tag'))
         out.append(dict(eps=[x, 'exchange'], target='tag'))
+    # sense() / connect() of one thread against close() of another: the
+    # documented outcomes are a return value or IOError (no device)
+    for x in ('sense1', 'sense2', 'connect_rdwr', 'connect_card', 'listen'):
+        out.append(dict(eps=[x, 'close'], target='tag'))
+        out.append(dict(eps=['close', x], target='none'))
     return out
 
 
@@ -690,7 +695,15 @@ def race_work(cfg):
         run.outcome(('race', tuple(sorted((i, r[0]) for i, r in
                                           rec['results'].items())),
                      bool(rec.get('stale'))))
-        if rec.get('stale'):
+        raised = [(i, r[1]) for i, r in sorted(rec['results'].items())
+                  if r[0] == 'exc']
+        if raised:
+            i, e = raised[0]
+            run.fail('race|%s|raises|%s|other-thread:%s' % (
+                cfg['eps'][i], sig_exc(e), cfg['eps'][1 - i]),
+                dict(kind='race', cfg=cfg, choices=ch.choices,
+                     error=repr(e)), key, deviations=ch.cost)
+        elif rec.get('stale'):
             other = [e for e in cfg['eps'] if e != 'exchange'][0]
             run.fail('race|exchange|stale-target|%s|other-thread:%s' % (
                 rec['stale'][0], other),
@@ -829,7 +842,11 @@ def replay(doc):
     if d.get('kind') == 'race':
         from props import c15
         s, rec = c15.execute(d['cfg'], sched.Chooser(d['choices']))
-        print('replay:', rec.get('stale'))
+        raised = [r[1] for i, r in sorted(rec['results'].items())
+                  if r[0] == 'exc']
+        print('replay:', rec.get('stale'), raised)
+        if '|raises|' in doc.get('signature', ''):
+            return 1 if raised else 0
         return 1 if rec.get('stale') else 0
     case = ast.literal_eval(d['case'])
     bad, outcome = {'sense': sense_case, 'listen': listen_case,
